@@ -29,7 +29,13 @@ type C02Case struct {
 
 var c02Classes = []string{"ascii", "ascii", "bmp", "astral", "ctrl", "lines", "seps", "quotes", "nul", "sse"}
 
+// words the protocol itself uses, and text a careless formatter or scanner would trip over
+var c02Literals = []string{"error", "result", "null", "true", "{}", "[]", "jsonrpc", "id", "method", "\"error\"", "\"error\":{\"code\":1}", "100% of %d %s %v %%", "%!d(MISSING)", "data: x", "isError"}
+
 func genStr(t *rapid.T, label string, allowEmpty bool) StrSpec {
+	if rapid.IntRange(0, 11).Draw(t, label+"lit") == 0 {
+		return StrSpec{Class: "lit", N: 1, Lit: rapid.SampledFrom(c02Literals).Draw(t, label+"literal")}
+	}
 	class := rapid.SampledFrom(c02Classes).Draw(t, label+"class")
 	var n int
 	switch rapid.IntRange(0, 19).Draw(t, label+"size") {
@@ -123,7 +129,7 @@ func genJSONTree(t *rapid.T, depth int) interface{} {
 		n := rapid.IntRange(0, 3).Draw(t, "jobj")
 		m := map[string]interface{}{}
 		for i := 0; i < n; i++ {
-			m[rapid.SampledFrom([]string{"a", "b", "_meta", "ünï", "x y"}).Draw(t, "jkey")] = genJSONTree(t, depth+1)
+			m[rapid.SampledFrom([]string{"a", "b", "_meta", "ünï", "x y", "error", "result", "100%"}).Draw(t, "jkey")] = genJSONTree(t, depth+1)
 		}
 		return m
 	}
